@@ -65,6 +65,25 @@ STRENGTHENED = {
     'C17-5': 'test metadata keys named like record fields used by the file name pattern',
     'C19-5': 'a slow station handler ahead of the record handlers, creation time noted per message and compared exactly',
     'C19-6': 'whole runs in child processes started with no -v / -v / -vv / -vvv',
+    # fifth round
+    'C01-8': 'phases wrapped by @monitors (directed and seeded programs)',
+    'C03-8': 'run_if predicates that say no / raise, groups without setup phases, stop_on_first_failure (grouporacle generalized)',
+    'C05-7': 'C12: default phase time-out set after import for phases without timeout_s (the mechanism is C12\'s; C05 has no notion of time)',
+    'C05-8': 'phase under test wrapped by @monitors',
+    'C06-7': 'late same-value write through a handle kept from the finished phase',
+    'C09-7': 'two Tests at once and two real SIGINTs (the other test outliving the first handler); found F34 and F35',
+    'C09-8': 'callbacks that are callable objects / functools.partial',
+    'C10-8': 'two loggers, the first held on its way into the record (log2)',
+    'C11-7': 'collection-level derives return the source collection for the identity check, derives without any override',
+    'C12-7': 'two_killers discovery made robust against a run() without a with block (was inconclusive)',
+    'C14-7': 'flood scenario with the answer to a write followed by CLSE (C15 catches it too: writes answered by WRTE+CLSE, sized reads)',
+    'C14-8': 'flood scenarios: 10-300 acknowledged messages parked for an unread stream',
+    'C15-8': 'one-shot transport write fault at a CLSE (header / payload)',
+    'C16-7': 'long commands (three lengths around the packet size)',
+    'C17-7': 'the same callback object publishes the next record after a failed publication',
+    'C18-7': 'KillableThread notifier killed at each line of notify_update, next notification follows',
+    'C20-7': 'bodies raising BaseException inside save_and_restore (snr_call with raise_kind)',
+    'C20-8': 'two-thread races on declare / load (engine on configuration.py)',
 }
 # caught at once, but by the check of a neighbouring property
 NEIGHBOUR = {
@@ -72,6 +91,9 @@ NEIGHBOUR = {
     'C03-6': 'caught by the C09 check (post-return state: still registered for SIGINT)',
     'C08-6': 'caught by the C04 check (real SIGINT schedules; it re-introduces the defect fixed as F17)',
     'C20-5': 'caught by the C09 check (per-run configuration marker in the metadata snapshot)',
+    'C01-7': 'caught by the C04 check (abort schedules: aborted run ended PASS)',
+    'C04-8': 'caught by the C03 check (aborter-held schedules: nested teardown phase not run)',
+    'C06-8': 'caught by the C11 check (declared objects changed by execute())',
 }
 rows = []
 root = os.path.join(HERE, 'seeded')
